@@ -11,7 +11,8 @@ from .tyres import Resolver, show_rope
 from mirsym.interp import Hole
 
 G = tyres.G
-GENERIC_ITEMS = ['Inner', 'G1', 'G2', 'G3', 'G5', 'G6', 'G7', 'G8', 'G9', 'G10', 'G11', 'G12', 'P1', 'P2', 'P3', 'P5', 'P6', 'P8', 'P9', 'R1', 'R2']
+GENERIC_ITEMS = ['Inner', 'G1', 'G2', 'G3', 'G4', 'G5', 'G6', 'G7', 'G8', 'G9', 'G10', 'G11', 'G12', 'G13', 'G14', 'G15', 'P1', 'P2', 'P3', 'P5', 'P6',
+                 'P8', 'P9', 'R1', 'R2', 'E5']
 
 
 def type_text(name, item):
@@ -34,12 +35,13 @@ def run(ty, meth, abstract, custom=None):
     return ex, res
 
 
-def ts_name_of(ty):
-    """TypeScript name of a concrete Rust type (defaults / concretised parameters), computed by the real code"""
-    ex, res = run(ty, 'name', [])
+def ts_name_of(ty, params=()):
+    """TypeScript name of a Rust type (defaults / concretised parameters), computed by the real code; type parameters occurring in
+    it stand for themselves (a default such as `C = Vec<T>` is rendered `Array<T>`)"""
+    ex, res = run(ty, 'name', list(params))
     if len(res) != 1 or res[0][1][0] != 'ok':
         raise Unsupported(f'cannot compute the TypeScript name of `{ty}`')
-    return show_rope(res[0][1][1])
+    return show_rope(subst_holes(res[0][1][1], {p: p for p in params}))
 
 
 def subst_holes(rope, mapping):
@@ -98,7 +100,7 @@ def check_item(name):
         header = []
         for p in item['params']:
             if p[0] == 'type' and p[1] in free:
-                header.append(p[1] + (' = ' + ts_name_of(p[2]) if p[2] else ''))
+                header.append(p[1] + (' = ' + ts_name_of(p[2], gens) if p[2] else ''))
         want_head = o('type ') + list(ident) + (o('<' + ', '.join(header) + '>') if header else []) + o(' = ')
         if decl[:len(want_head)] != want_head or decl[-1:] != o(';'):
             viol(f'declaration header is {show_rope(decl[:len(want_head) + 4])!r}..., expected {show_rope(want_head)!r}', decl=show_rope(decl))
@@ -126,7 +128,7 @@ def check_item(name):
         out['obligations'] += 1
         mapping = {p: p for p in free}
         for p, cty in item['concrete'].items():
-            mapping[p] = ts_name_of(cty)
+            mapping[p] = ts_name_of(cty, gens)
         if subst_holes(inl, mapping) != body:
             viol(f'decl() body {show_rope(body)!r} is not inline() {show_rope(inl)!r} with the arguments replaced by the parameter names')
         else:
@@ -172,7 +174,7 @@ def native_probe(rep):
             ps = [p for p in item['params'] if p[0] != 'lifetime']
             if not ps:
                 continue
-            args = ', '.join(['Arg1', 'Arg2'][i % 2] for i in range(len(ps)))
+            args = ', '.join('3' if ps[i][0] == 'const' else ['Arg1', 'Arg2'][i % 2] for i in range(len(ps)))
             t = f'{name}::<{args}>'
             for meth in ('decl', 'decl_concrete', 'name', 'inline'):
                 main.append(f'    match std::panic::catch_unwind(|| <{t} as TS>::{meth}()) {{ Ok(s) => println!("{name}\\t{meth}\\tok\\t{{}}", s.replace(\'\\n\', "\\\\n")), '
@@ -249,6 +251,15 @@ def main():
                         if bad <= 3:
                             rep.inconclusive.append(f'translator validation mismatch {name}::{meth}: engine {mine!r} native {nat[(name, meth)][1]!r}')
     rep.validated('corpus impls at concrete arguments (Arg1/Arg2) vs the natively compiled derive output', n, bad)
+    # rustc's MIR text prints the dummy struct `T` declared inside decl() and the type parameter `T` alike, so the engine must assume
+    # that every mention inside decl() is the dummy. Whether that holds is visible natively: the compiled decl() at the arguments
+    # Arg1 / Arg2 must not mention them. (Native evidence, reported as a violation of the parametricity clause.)
+    for name in items:
+        d = nat.get((name, 'decl'))
+        if d and d[0] == 'ok' and re.search(r'\bArg[12]\b|\b[qr]: number', d[1]):
+            rep.violations.append({'what': f'{G["corpus"][name]["src"]}: the natively compiled decl() at the arguments Arg1/Arg2 is {d[1]!r}: '
+                                           f'it depends on the type arguments', 'witness': {'item': name, 'native_decl': d[1]}, 'key': f'{name}/native-decl'})
+            rep.inconclusive[:] = [x for x in rep.inconclusive if not x.startswith(f'translator validation mismatch {name}::decl')]
     for name, r in zip(items, results):
         for v in r.pop('violations', []):
             # native confirmation: the same equation evaluated on the natively compiled strings
